@@ -130,14 +130,17 @@ SCENARIO sc_clm(bool reversed, bool respelled) { std::string d = "cin"; spit(d +
 	std::string out = "o.clm"; fs::remove(out); Archive::ClmFile::CreateArchive(out, in); observe("clm.create", slurp(out)); Archive::ClmFile c(out); observe("clm.listing", dump(c)); c.ExtractFile(1, "ex.wav"); observe("clm.extract", slurp("ex.wav")); }
 SCENARIO sc_files() { Map m; m.Write("m.map"); observe("map.default.write.file", slurp("m.map")); auto b = BitmapFile::CreateIndexed(4, 9, 2); b.WriteIndexed("b.bmp"); observe("bmp.factory.write.file", slurp("b.bmp")); ArtFile a; a.Write("a.prt"); observe("prt.default.write.file", slurp("a.prt")); }
 
+// a scenario that ends in an exception (a changed library may refuse what it used to accept) is itself an observation: the recorder goes on,
+// and the determinism comparison still has every other scenario - and the fact that this one threw - to compare
+template <class F> static void guarded(const std::string& name, F f) { try { f(); } catch (const std::exception&) { observe(name + ".threw", Bytes{1}); } }
 int main(int argc, char** argv) {
 	for (int i = 1; i + 1 < argc; ++i) { std::string a = argv[i], v = argv[i + 1]; if (a == "--env") ENVN = v; else if (a == "--paint") PAINT = (unsigned char)atoi(v.c_str()); else if (a == "--workdir") WORK = v; }
 	fs::create_directories(WORK); fs::current_path(WORK);
 	std::cout << json{{"e", "Reset"}, {"scenario", "environment " + ENVN}}.dump() << std::endl;
-	paint(); sc_map_default(); paint(); sc_art_default(); paint(); sc_bmp_factory(); paint(); sc_tileset(); paint(); sc_map_parse(); paint(); sc_map_parse_deep();
-	paint(); sc_save_parse(); paint(); sc_bmp_parse(); paint(); sc_prt_parse(); paint(); sc_files();
-	for (int k = 0; k < 4; ++k) { paint(); sc_vol(k & 1, k & 2); }
-	for (int count : {1, 3, 5, 7}) for (int k = 0; k < 2; ++k) { paint(); sc_vol_odd(count, k); }
-	for (int k = 0; k < 4; ++k) { paint(); sc_clm(k & 1, k & 2); }
+	paint(); guarded("sc_map_default", [&] { sc_map_default(); }); paint(); guarded("sc_art_default", [&] { sc_art_default(); }); paint(); guarded("sc_bmp_factory", [&] { sc_bmp_factory(); }); paint(); guarded("sc_tileset", [&] { sc_tileset(); }); paint(); guarded("sc_map_parse", [&] { sc_map_parse(); }); paint(); guarded("sc_map_parse_deep", [&] { sc_map_parse_deep(); });
+	paint(); guarded("sc_save_parse", [&] { sc_save_parse(); }); paint(); guarded("sc_bmp_parse", [&] { sc_bmp_parse(); }); paint(); guarded("sc_prt_parse", [&] { sc_prt_parse(); }); paint(); guarded("sc_files", [&] { sc_files(); });
+	for (int k = 0; k < 4; ++k) { paint(); guarded("sc_vol", [&] { sc_vol(k & 1, k & 2); }); }
+	for (int count : {1, 3, 5, 7}) for (int k = 0; k < 2; ++k) { paint(); guarded("sc_vol_odd", [&] { sc_vol_odd(count, k); }); }
+	for (int k = 0; k < 4; ++k) { paint(); guarded("sc_clm", [&] { sc_clm(k & 1, k & 2); }); }
 	return 0;
 }
